@@ -15,6 +15,7 @@ from symx.core import Abort, iff, implies, ite, land, lnot, lor, sabs, smax, smi
 from . import common
 from .common import INF, arr, items
 
+HEAVY = ("ParetoDecrease", "DualEquilibration")
 POLICIES = ["Constant", "DualNorm", "DualEquilibration", "ParetoDecrease", "ObjectiveFilter", "LagrangianFilter"]
 
 FUNCTIONS = [
@@ -393,7 +394,10 @@ def h_loop(E, shape):
 def loop_tasks(combos, K, opts=None):
     out = []
     for c in combos:
-        sh = dict(K=K, policy=c.get("policy", "DualNorm"), vars=c.get("vars", ["boxed"]), cons=c.get("cons", []))
+        Kc = K
+        if c.get("policy") in HEAVY and c.get("cons") and K > 2:
+            Kc = 2  # 15 k paths / 20 min single core at K=3 (measured): these two policies stay at K=2
+        sh = dict(K=Kc, policy=c.get("policy", "DualNorm"), vars=c.get("vars", ["boxed"]), cons=c.get("cons", []))
         for k in ("limit", "time_limit", "collect_path", "fmt", "deriv_check", "start_faults", "policy_cb"):
             if k in c:
                 sh[k] = c[k]
